@@ -307,6 +307,20 @@ def _rand_ls(rng, n1, lo=0.3, hi=2.0):
     return _logu(rng, lo, hi, size=n1) * max(1.0, np.sqrt(n1 / 2.0))
 
 
+def _relayout(rng, rec, arr):
+    """The same control points in another memory layout (C order, Fortran order - what DFTKernel.set_control_points(reduce=
+    True) stores -, or a strided view): the evaluators must read them by value, not by raw buffer."""
+    lay = str(rng.choice(["C", "F", "strided"], p=[0.4, 0.3, 0.3]))
+    rec.tag("control_point_layout", lay)
+    if lay == "F":
+        return np.asfortranarray(arr)
+    if lay == "strided":
+        big = np.full(arr.shape[:-2] + (2 * arr.shape[-2], arr.shape[-1]), 7.5)
+        big[..., ::2, :] = arr
+        return big[..., ::2, :]
+    return arr
+
+
 def _run_cx(case, rec, rng):
     fam = case["family"]
     for d in range(case["ndraw"]):
@@ -342,7 +356,7 @@ def _cx_rbf(rec, rng, fam):
     fs, ds = _scales(f0, df0, alpha, c, ls)
     rec.check("python_kernel_sum_vs_formula", max(_err(f0, fd, fs), _err(df0, dfd, ds)), TOL_EXACT,
               mechanism="KernelEvaluator:DiffRBF-vs-formula")
-    ev = xe.RBFEvaluator(kern, ctrl, alpha)
+    ev = xe.RBFEvaluator(kern, _relayout(rng, rec, ctrl), alpha)
     X0 = X.copy()
     f1, df1, same = _call_prefilled(ev, X, rng, fs, ds)
     rec.require("evaluator_adds_in_place", same and np.array_equal(X, X0), mechanism="RBFEvaluator:buffers")
@@ -435,7 +449,7 @@ def _cx_subset(rec, rng, fam):
                      fam, "RBFEvaluator.__init__:subset-index-extraction")
     ctrl_sub = np.ascontiguousarray(ctrl[:, cols])
     try:
-        ev = xe.RBFEvaluator(kern, ctrl_sub, alpha)
+        ev = xe.RBFEvaluator(kern, _relayout(rng, rec, ctrl_sub), alpha)
     except Exception as e:  # the constructor cannot map this (valid) kernel
         rec.require("subset_constructible", False, mechanism=mech_init,
                     detail={"indexes": str(idx), "nfeat": N1, "error": "%s: %s" % (type(e).__name__, e)})
@@ -506,7 +520,7 @@ def _cx_antisym(rec, rng):
     fs, ds = _scales(f0, df0, alpha, c, lsk)
     rec.check("antisym_reference_gradient_vs_fd", _err(fdj, df0[:m, j], ds), 1e-5,
               mechanism="harness:antisym-reference-gradient")
-    ev = xe.AntisymRBFEvaluator(kern, ctrl, alpha)
+    ev = xe.AntisymRBFEvaluator(kern, _relayout(rng, rec, ctrl), alpha)
     f1, df1, same = _call_prefilled(ev, X, rng, fs, ds)
     rec.check("antisym_value", _err(f1, f0, fs), TOL_EXACT, mechanism="AntisymRBFEvaluator:value",
               detail={"nfeat": N1, "n": n, "nctrl": nctrl})
@@ -543,7 +557,7 @@ def _cx_spin(rec, rng):
     rec.tag("spin_constant", "c*RBF" if const else "bare RBF")
     f0, df0 = _spin_ref(kern, X2, C2, alpha)
     fs, ds = _scales(f0, df0, alpha, 2 * c * c, ls)
-    ev = xe.SpinRBFEvaluator(kern, C2, alpha)
+    ev = xe.SpinRBFEvaluator(kern, _relayout(rng, rec, C2), alpha)
     f1, df1, same = _call_prefilled(ev, X2, rng, fs, ds)
     rec.check("spin_value", _err(f1, f0, fs), TOL_EXACT, mechanism="SpinRBFEvaluator:value",
               detail={"nfeat": N1, "n": n, "nctrl": nctrl, "const": c})
